@@ -179,3 +179,8 @@ Print Assumptions C17_old_order_not_determined.
 Theorem C17_tcp_size_width_pinned : (RV.Generated.Params.tcp_size_width = 16)%N.
 Proof. exact tcp_size_width_pinned. Qed.
 Print Assumptions C17_tcp_size_width_pinned.
+
+(* the insertion counter of the conditioner (unbounded in the model) is 64 bits wide in the current source *)
+Theorem C17_sequence_width_pinned : (RV.Generated.Params.cond_sequence_width = 64)%N.
+Proof. exact cond_sequence_width_pinned. Qed.
+Print Assumptions C17_sequence_width_pinned.
